@@ -62,10 +62,10 @@ PROPS["C10"] = dict(
                 "correctly rounded binary64 sum ((-0 + x1) + x2) + … of the pieces' values with the flags combined; an error in a piece is an error of "
                 "the sum), hemisphere_repeated, sign_after_hemisphere, sign_with_trailing_hemisphere, internal_sign_rejected. Utility::str/val (new): "
                 "str_val_nonfinite (nan, inf, -inf round-trip at every precision), str_val_reads_units (val reads back exactly the printed count of "
-                "units, correctly rounded, with the sign of x). ROUND TRIP (new; rational error bounds over the exact binary64 model from the IsRN / RoundSpec rounding theory): fixedUnits_half_unit (the one decimal rounding of %.*f is within half a unit), encode_value_bound (for every representable finite x, flag other than AZIMUTH: encodeHead splits off the whole degrees exactly, computes the fractional part exactly, multiplies by scale = 1/60/3600 with one binary64 rounding and rounds once half-even to units of 10^-prec; printed value within 1/2*10^-prec/scale + 2^-53 of |x|, for DEGREE without the 2^-53), encode_units_le_degree, decode_value_bound (slots with degrees < 2^41, minutes and seconds < 60, at most 15 decimals: evalSlots succeeds, result within 4*2^-53*V of +-V, V = d + m/60 + s/3600 exact; integer digits accumulate exactly, strtod / the sum / the division one correct rounding each), roundtrip_bound (|x| < 2^40, DEGREE/MINUTE/SECOND, every precision, flags NONE/LATITUDE/LONGITUDE, separator none or ':': Decode(Encode x) succeeds with the hemisphere-class flag and |y - x| <= B + 4*2^-53*(|x| + B), B = 1/2*10^-prec/scale + 2^-53), str_val_roundtrip (|x| <= 2^52, p <= 30: val(str x p) succeeds, |y - x| <= 1/2*10^-p + 2^-53*(|x| + 1)). "
+                "units, correctly rounded, with the sign of x). ROUND TRIP (new; rational error bounds over the exact binary64 model from the IsRN / RoundSpec rounding theory): fixedUnits_half_unit (the one decimal rounding of %.*f is within half a unit), encode_value_bound (for every representable finite x, flag other than AZIMUTH: encodeHead splits off the whole degrees exactly, computes the fractional part exactly, multiplies by scale = 1/60/3600 with one binary64 rounding and rounds once half-even to units of 10^-prec; printed value within 1/2*10^-prec/scale + 2^-53 of |x|, for DEGREE without the 2^-53), encode_units_le_degree, decode_value_bound (slots with degrees < 2^41, minutes and seconds < 60, at most 15 decimals: evalSlots succeeds, result within 4*2^-53*V of +-V, V = d + m/60 + s/3600 exact; integer digits accumulate exactly, strtod / the sum / the division one correct rounding each), roundtrip_bound (|x| < 2^40, DEGREE/MINUTE/SECOND, every precision, flags NONE/LATITUDE/LONGITUDE, separator none or ':': Decode(Encode x) succeeds with the hemisphere-class flag and |y - x| <= B + 4*2^-53*(|x| + B), B = 1/2*10^-prec/scale + 2^-53), roundtrip_bound_azimuth (EVERY binary64 x, flag AZIMUTH: Encode prints the reduced angle x' = AngNormalize x, +360 with one rounding if negative, x' in [0,360]; Decode gives flag NONE and a value within the same bound of x'), str_val_roundtrip (|x| <= 2^52, p <= 30: val(str x p) succeeds, |y - x| <= 1/2*10^-p + 2^-53*(|x| + 1)). "
                 "The byte-level executable model (replace table, trimming, splitting, state machine, exact strtod and %.*f) is compared exactly with the "
                 "implementation on every sampled input; round trips, normalisation, documented meanings, rejection of malformed text, GeoCoords closures "
-                "and the tools' line contract are oracles on the implementation. Not proved: the round-trip bound for the AZIMUTH flag (Encode reduces the angle with AngNormalize first; the grammar/closure theorems do cover it) and for |x| >= 2^40 (for >= 2^53 degrees it is false for the code as it is: open finding F33); decode_encode for separators other than none and ':' (Decode does not read them back); the 4-argument Encode overload and DecodeLatLon/GeoCoords compositions are correspondence only; that glibc strtod / printf and libstdc++ num_get behave as modelled is an assumption validated by the exact correspondence; iostream behaviour is modelled, not verified."),
+                "and the tools' line contract are oracles on the implementation. Not proved: the round-trip bound for |x| >= 2^40 with the flags NONE/LATITUDE/LONGITUDE (for >= 2^53 degrees it is false for the code as it is: open finding F33); decode_encode for separators other than none and ':' (Decode does not read them back); the 4-argument Encode overload and DecodeLatLon/GeoCoords compositions are correspondence only; that glibc strtod / printf and libstdc++ num_get behave as modelled is an assumption validated by the exact correspondence; iostream behaviour is modelled, not verified."),
     level_note=("replace table of DMS::Decode (43 ordered (pattern, char) pairs), hemispheres_/signs_/digits_/dmsindicators_, the flag and component enums and "
                 "Math::dm/ms/ds are regenerated from DMS.cpp/DMS.hpp/Math.hpp on every run; hand-written model of the control flow; strtod/printf are "
                 "modelled as correctly rounded / exact (glibc), libstdc++ num_get overflow → DBL_MAX; GeoConvert.cpp and GeodSolve.cpp are compiled "
